@@ -1,7 +1,567 @@
-"""C03 — not implemented yet (fail closed)."""
-from ..model import AnalysisError
+"""C03 Shadow detection is sound — logical skeleton of Ace.shadow_of and its helpers."""
+
+from __future__ import annotations
+
+import ast
+from typing import Dict, List, Optional, Set, Tuple
+
+from ..cfg import CFG, Node
+from ..core import Ctx, Report, snippet, where
+from ..fold import known
+from ..model import AnalysisError, Func, own_nodes, src
+from ..pathsem import PathInfo, function_paths, resolve_local
+from .common import (
+    chain,
+    chains_in,
+    deep_resolve,
+    expr_fields,
+    falsy_const_return,
+    fields_read,
+    first_difference,
+    held_label,
+    inclusion,
+    mentions,
+    names_in,
+    norm_field,
+    normalised_body,
+    reachable_without_edges,
+    return_nodes,
+)
+
 PROPERTY = "C03"
 LEVEL = "other"
-EXPLANATION = "not implemented"
-def run(ctx, rep, tier):
-    raise AnalysisError("rules for C03 are not implemented yet")
+EXPLANATION = (
+    "Decides the logical skeleton of Ace.shadow_of: it is a conjunction over every packet field the renderer emits, "
+    "skip options can only falsify and are independent, source and destination helpers agree, 'no restriction' is "
+    "recognised by the absent operator and not by an empty port list, inclusion tests run bottom ⊆ top, the protocol "
+    "wildcard is the name 'ip' of number 0 on every platform, and the address cover is ∀bottom ∃top with empty covering "
+    "nothing. Does not decide that the per-field inclusion tests compute true set inclusion for all values (that rests "
+    "on ipaddress, on the wildcard expansion and on the port sets)."
+)
+ASSUMPTIONS = [
+    "ipaddress.IPv4Network.subnet_of is true set inclusion of contiguous networks",
+    "Port.ports and AddressBase.ipnets() denote the packet sets (C05/C08 cover their structural parts)",
+]
+
+PORT_ABSENCE_ATTRS = {"operator", "_operator", "line", "items", "_items"}
+PORT_DENOTATION_ATTRS = {"ports", "_ports", "sport", "_sport"}
+
+
+# ------------------------------------------------------------------ derived facts
+def packet_fields(ctx: Ctx) -> List[str]:
+    """Attributes whose text the extended branch of Ace.line getter joins, minus the sequence prefix."""
+    g = ctx.func("Ace.line.getter")
+    best: List[str] = []
+    for n in own_nodes(g.node):
+        if isinstance(n, (ast.List, ast.Tuple)) and len(n.elts) >= 3:
+            fields = []
+            for e in n.elts:
+                for c in chains_in(e):
+                    if c[0] == "self" and len(c) >= 2 and not c[1].endswith("()"):
+                        fields.append(norm_field(g.cls, c[1]))
+                        break
+            if len(fields) > len(best):
+                best = fields
+    if len(best) < 5:
+        raise AnalysisError("Ace.line getter: cannot recover the list of rendered fields")
+    return best
+
+
+def helper_for_field(ctx: Ctx, rep: Report, field: str) -> Optional[Func]:
+    """The `_shadow_of__*` helper called from shadow_of that reads `field` of both sides."""
+    so = ctx.func("Ace.shadow_of")
+    other = so.params[1]
+    for n in own_nodes(so.node):
+        if isinstance(n, ast.Call) and isinstance(n.func, ast.Attribute):
+            c = chain(n.func)
+            if c and c[0] == "self" and len(c) == 2:
+                m = so.cls.lookup_method(c[1])
+                if m is None:
+                    continue
+                fr = expr_fields(ctx, so, n, {"self": "self", other: "other"})
+                if field in fr.get("self", set()) and field in fr.get("other", set()):
+                    return m
+    return None
+
+
+# ------------------------------------------------------------------ R03.1
+def r03_1(ctx: Ctx, rep: Report) -> List[str]:
+    rep.rule("R03.1")
+    so = ctx.func("Ace.shadow_of")
+    rep.require(len(so.params) >= 2, "Ace.shadow_of lost its `other` parameter")
+    other = so.params[1]
+    cfg = ctx.cfg(so)
+    fields = packet_fields(ctx)
+    rep.instance()
+    roots = {"self": "self", other: "other"}
+    conds = [n for n in cfg.live if n.kind == "cond"]
+    cover: Dict[str, List[Node]] = {f: [] for f in fields}
+    for c in conds:
+        fr = expr_fields(ctx, so, c.ast, roots)
+        for f in fields:
+            if f in fr.get("self", set()) and f in fr.get("other", set()):
+                cover[f].append(c)
+    truthy = [r for r in return_nodes(cfg) if not falsy_const_return(r)]
+    rep.require(bool(truthy), "Ace.shadow_of has no path that returns a truthy value")
+    for f in fields:
+        cut = {(c.id, held_label(c.ast)) for c in cover[f]}
+        reach = reachable_without_edges(cfg, cfg.entry, cut)
+        bad = []
+        for r in truthy:
+            rf = expr_fields(ctx, so, r.ast.value, roots) if r.ast.value is not None else {}
+            self_cov = f in rf.get("self", set()) and f in rf.get("other", set())
+            if r in reach and not self_cov:
+                bad.append(r)
+        if bad:
+            path = cfg.witness_path(cfg.entry, bad[0], lambda n: False)
+            rep.violation(
+                "Ace.shadow_of",
+                f"field {f}",
+                f"a path reaches `{snippet(bad[0].ast)}` without a cover test of {f} having held on both entries"
+                + ("" if cover[f] else " (no test reads this field of self and other)"),
+                where(so, bad[0].ast),
+                path=[repr(n) for n in path],
+            )
+        else:
+            rep.ok(f"shadow_of covers {f}", "every truthy return is dominated by a held test of this field: " + ", ".join(snippet(c.ast, 50) for c in cover[f]), where=where(so))
+    return fields
+
+
+# ------------------------------------------------------------------ R03.2
+def skip_structure(ctx: Ctx, f: Func, rep: Report, qual: str) -> None:
+    """Monotone + independent skip handling in one address helper."""
+    cfg = ctx.cfg(f)
+    if "skip" not in f.params:
+        rep.violation(qual, "parameter skip", "the address cover helper no longer receives the skip options", where(f))
+        return
+    tainted = {"skip"}
+    changed = True
+    while changed:
+        changed = False
+        for n in own_nodes(f.node):
+            tg, val = None, None
+            if isinstance(n, ast.Assign) and len(n.targets) == 1 and isinstance(n.targets[0], ast.Name):
+                tg, val = n.targets[0].id, n.value
+            elif isinstance(n, ast.AnnAssign) and isinstance(n.target, ast.Name) and n.value is not None:
+                tg, val = n.target.id, n.value
+            elif isinstance(n, ast.NamedExpr) and isinstance(n.target, ast.Name):
+                tg, val = n.target.id, n.value
+            if tg and tg not in tainted and names_in(val) & tainted:
+                tainted.add(tg)
+                changed = True
+    sconds: List[Tuple[Node, str, str]] = []  # node, token, present label
+    for c in cfg.live:
+        if c.kind != "cond" or not (names_in(c.ast) & tainted):
+            continue
+        token, present = "?", "T"
+        t = c.ast
+        if isinstance(t, ast.Compare) and len(t.ops) == 1 and isinstance(t.ops[0], (ast.In, ast.NotIn)) and isinstance(t.left, ast.Constant):
+            token = str(t.left.value)
+            present = "T" if isinstance(t.ops[0], ast.In) else "F"
+        sconds.append((c, token, present))
+    if not sconds:
+        rep.violation(qual, "skip handling", "no condition derived from the skip options: the skip options are ignored", where(f))
+        return
+    rep.instance(len(sconds))
+    for c, token, present in sconds:
+        absent = "F" if present == "T" else "T"
+        pres_t = [s for lab, s in c.succ if lab == present]
+        abs_t = [s for lab, s in c.succ if lab == absent]
+        if not pres_t or not abs_t:
+            continue
+        rp = cfg.reachable(pres_t[0], labels_avoid=("exc",))
+        ra = cfg.reachable(abs_t[0], labels_avoid=("exc",))
+        exclusive = [n for n in rp - ra if n.kind not in ("exit", "raise")]
+        ok = True
+        for n in exclusive:
+            if n.kind == "cond":
+                continue
+            if n.kind == "stmt" and isinstance(n.ast, ast.Return) and falsy_const_return(n) and n.ast.value is not None:
+                continue
+            if n.kind == "stmt" and isinstance(n.ast, ast.Pass):
+                continue
+            ok = False
+            rep.violation(
+                qual,
+                f"skip token {token!r}: {snippet(n.ast)}",
+                "a statement that runs only when the skip option is present is neither a test nor `return False`: "
+                "adding a skip option can change the answer other than from True to False",
+                where(f, n.ast),
+            )
+        if ok:
+            rep.ok(f"{qual}: skip {token!r} is monotone", f"{len(exclusive)} exclusive node(s), all tests or `return False`", where=where(f, c.ast))
+    # independence
+    for c1, t1, p1 in sconds:
+        for c2, t2, p2 in sconds:
+            if c1 is c2 or t1 == t2:
+                continue
+            a1 = "F" if p1 == "T" else "T"
+            pres = [s for lab, s in c1.succ if lab == p1]
+            abse = [s for lab, s in c1.succ if lab == a1]
+            if not pres or not abse:
+                continue
+            via_p = c2 in cfg.reachable(pres[0], labels_avoid=("exc",))
+            via_a = c2 in cfg.reachable(abse[0], labels_avoid=("exc",))
+            if via_a and not via_p:
+                rep.violation(
+                    qual,
+                    f"skip token {t2!r} is tested only when {t1!r} is absent",
+                    "skip options are not independent: with both options given the second is ignored, so adding an "
+                    "option can turn False into True",
+                    where(f, c2.ast),
+                    inp="top 'permit ip 10.0.0.0 0.0.3.3 any', bottom 'permit ip 10.0.0.0 0.0.1.3 any', skip=['addrgroup','nc_wildcard']",
+                )
+            elif via_a and via_p:
+                rep.ok(f"{qual}: skip {t2!r} independent of {t1!r}", "tested on both branches", where=where(f, c2.ast))
+
+
+def r03_2(ctx: Ctx, rep: Report, helpers: Dict[str, Optional[Func]]) -> None:
+    rep.rule("R03.2")
+    so = ctx.func("Ace.shadow_of")
+    for fld in ("_srcaddr", "_dstaddr"):
+        h = helpers.get(fld)
+        if h is None:
+            continue
+        skip_structure(ctx, h, rep, h.qualname)
+    # skip is forwarded unchanged
+    fwd = 0
+    for n in own_nodes(so.node):
+        if isinstance(n, ast.Call) and isinstance(n.func, ast.Attribute) and src(n.func.value) == "self":
+            m = so.cls.lookup_method(n.func.attr)
+            if m is not None and "skip" in m.params:
+                val = None
+                for kw in n.keywords:
+                    if kw.arg == "skip":
+                        val = kw.value
+                idx = m.params.index("skip") - 1
+                if val is None and idx < len(n.args):
+                    val = n.args[idx]
+                fwd += 1
+                if val is None or src(val) != "skip":
+                    rep.violation("Ace.shadow_of", snippet(n), "the skip options are not forwarded unchanged to the address helper", where(so, n))
+                else:
+                    rep.ok(f"Ace.shadow_of -> {m.name}", "skip forwarded unchanged", where=where(so, n))
+    rep.instance(fwd)
+    rep.floor(4, "skip conditions and forwardings")
+
+
+# ------------------------------------------------------------------ R03.3
+SIBLINGS = [
+    ("Ace._shadow_of__srcaddr", "Ace._shadow_of__dstaddr"),
+    ("Ace._shadow_of__srcport", "Ace._shadow_of__dstport"),
+    ("Ace._lt__srcaddr", "Ace._lt__dstaddr"),
+    ("Ace._lt__srcport", "Ace._lt__dstport"),
+]
+
+
+def r03_3(ctx: Ctx, rep: Report, pairs=SIBLINGS[:2]) -> None:
+    rep.rule("R03.3")
+    for a, b in pairs:
+        fa, fb = ctx.prog.find_func(a), ctx.prog.find_func(b)
+        if fa is None or fb is None:
+            # a refactor that merges both sides into one helper removes the obligation
+            rep.note(f"R03.3 sibling pair {a} / {b} not present as two functions (merged?)")
+            continue
+        rep.instance()
+        na = normalised_body(fa.node, {"src": "dst"})
+        nb = normalised_body(fb.node, None)
+        if na == nb:
+            rep.ok(f"{a} ≡ {b}", "identical modulo src↔dst renaming, temporaries and local names", where=where(fa))
+        else:
+            x, y = first_difference(na, nb)
+            rep.violation(a, f"{x}  <>  {y}", f"source and destination helpers disagree (first difference after src↔dst normalisation, {b} on the right)", where(fa))
+
+
+# ------------------------------------------------------------------ R03.4 / R03.7
+def port_cover_rules(ctx: Ctx, rep: Report, h: Func, field: str) -> None:
+    cfg = ctx.cfg(h)
+    other = h.params[1] if len(h.params) > 1 else "other"
+    paths = [p for p in function_paths(cfg) if not p.raises]
+    # R03.4
+    rep.rule("R03.4")
+    rep.instance()
+    n_true = 0
+    for p in paths:
+        if not (isinstance(p.ret, ast.Constant) and p.ret.value is True):
+            continue
+        n_true += 1
+        has_absence = False
+        empty_reason = None
+        for test, truth in p.atoms:
+            t = deep_resolve(test, p.env)
+            for c in chains_in(t):
+                if c[0] == other and len(c) >= 3 and norm_field(h.cls, c[1]) == field:
+                    leaf = c[2].rstrip("()")
+                    if leaf in PORT_ABSENCE_ATTRS:
+                        has_absence = True
+                    elif leaf in PORT_DENOTATION_ATTRS and not truth:
+                        empty_reason = snippet(test)
+        if has_absence:
+            rep.ok(f"{h.qualname}: `return True` path", "guarded by a test of the top's operator/line/items (absent expression)", where=where(h))
+        else:
+            rep.violation(
+                h.qualname,
+                f"return True when {empty_reason or 'no test of the top operator'} is falsy",
+                "an empty port *list* is read as 'no restriction', but 'lt 1' / 'gt 65535' have an operator and denote no "
+                "port: such a top would be reported to cover every entry",
+                where(h),
+                inp="top 'permit tcp any lt 1 any', bottom 'permit tcp any eq 80 any'",
+            )
+    # R03.7
+    rep.rule("R03.7")
+    rep.instance()
+    found = False
+    for p in paths:
+        cands: List[ast.AST] = []
+        if p.ret is not None and not isinstance(p.ret, ast.Constant):
+            cands.append(p.ret)
+        for c in cands:
+            inc = inclusion(c, p.env)
+            if inc is None:
+                continue
+            found = True
+            x, y, kind = inc
+            rx_, ry = deep_resolve(x, p.env), deep_resolve(y, p.env)
+            x_self, x_other = mentions(rx_, "self"), mentions(rx_, other)
+            y_self, y_other = mentions(ry, "self"), mentions(ry, other)
+            if kind == "equal":
+                rep.violation(h.qualname, snippet(c), "the cover test is an equality, not an inclusion of the bottom set in the top set", where(h))
+            elif kind == "proper":
+                rep.violation(h.qualname, snippet(c), "the cover test demands a proper subset: an identical entry is not reported", where(h))
+            elif x_self and not x_other and y_other and not y_self:
+                rep.ok(f"{h.qualname}: {snippet(c, 60)}", f"normalises to bottom(self) ⊆ top({other})", where=where(h))
+            else:
+                rep.violation(h.qualname, snippet(c), f"inclusion runs the wrong way: {snippet(rx_, 40)} ⊆ {snippet(ry, 40)} (must be bottom from self ⊆ top from {other})", where(h))
+    if not found:
+        # a helper that returns only constants decides nothing
+        rep.violation(h.qualname, "cover test", "no set-inclusion test (bottom ⊆ top) decides the answer", where(h))
+
+
+# ------------------------------------------------------------------ R03.5
+def r03_5(ctx: Ctx, rep: Report, h: Optional[Func]) -> None:
+    rep.rule("R03.5")
+    if h is None:
+        return
+    other = h.params[1] if len(h.params) > 1 else "other"
+    cfg = ctx.cfg(h)
+    paths = [p for p in function_paths(cfg) if not p.raises]
+    platforms = ctx.folder.const("helpers", "PLATFORMS")
+    rep.instance()
+    wild: Set[str] = set()
+    for p in paths:
+        if isinstance(p.ret, ast.Constant) and p.ret.value is True:
+            for test, truth in p.atoms:
+                t = deep_resolve(test, p.env)
+                if isinstance(t, ast.Compare) and len(t.ops) == 1 and isinstance(t.ops[0], ast.Eq) and truth:
+                    sides = [t.left, t.comparators[0]]
+                    const = [s for s in sides if isinstance(s, ast.Constant)]
+                    var = [s for s in sides if not isinstance(s, ast.Constant)]
+                    if const and var:
+                        ch = chain(var[0])
+                        if ch and ch[0] == other and norm_field(h.cls, ch[1]) == "_protocol":
+                            wild.add(repr(const[0].value) + ":" + ch[-1])
+                        elif ch and ch[0] == "self":
+                            rep.violation(h.qualname, snippet(test), "the protocol wildcard short-cut tests the bottom entry (self): a bottom 'ip' would be covered by any top", where(h))
+                        else:
+                            rep.violation(h.qualname, snippet(test), "unrecognised short-cut to True in the protocol cover test", where(h))
+            if not p.atoms:
+                rep.violation(h.qualname, "return True", "the protocol cover test is unconditionally true", where(h))
+    nr2p = ctx.folder.const("protocol", "NR_TO_PROTOCOL")
+    for w in sorted(wild):
+        val, attr = w.rsplit(":", 1)
+        val = eval(val)  # literal repr of a str/int constant produced above
+        if attr == "name":
+            for plat in platforms:
+                nums = [n for n, nm in nr2p.get(plat, {}).items() if nm == val]
+                if nums != [0]:
+                    rep.violation(h.qualname, f"name {val!r} on {plat} -> numbers {nums}", "the wildcard protocol name must be the name of number 0 and of nothing else on every platform", where(h))
+                else:
+                    rep.ok(f"NR_TO_PROTOCOL[{plat}]: {val!r} ⇔ 0", "the wildcard name denotes exactly protocol 0", nontrivial=True)
+        elif attr in ("number", "_number"):
+            if val != 0:
+                rep.violation(h.qualname, f"number == {val}", "the wildcard protocol number must be 0", where(h))
+            else:
+                rep.ok("wildcard protocol number", "0")
+        else:
+            rep.violation(h.qualname, w, "unrecognised protocol wildcard test", where(h))
+    if not wild:
+        rep.note("R03.5 no protocol wildcard short-cut found (every protocol compared by number)")
+    # the general comparison is by number on both sides
+    okcmp = False
+    for p in paths:
+        r = deep_resolve(p.ret, p.env) if p.ret is not None else None
+        cands = [r] if r is not None and not isinstance(r, ast.Constant) else []
+        for test, truth in p.atoms:
+            cands.append(deep_resolve(test, p.env))
+        for t in cands:
+            if isinstance(t, ast.Compare) and len(t.ops) == 1 and isinstance(t.ops[0], (ast.Eq, ast.NotEq)):
+                cl, cr = chain(t.left), chain(t.comparators[0])
+                if cl and cr and {cl[0], cr[0]} == {"self", other} and cl[-1].lstrip("_") == cr[-1].lstrip("_") == "number":
+                    okcmp = True
+    rep.instance()
+    if okcmp:
+        rep.ok(f"{h.qualname}: general case", "compares protocol.number of self and other", where=where(h))
+    else:
+        rep.violation(h.qualname, "general comparison", "protocols are not compared by number on both sides", where(h))
+
+
+# ------------------------------------------------------------------ R03.6
+def check_subnet_of_shape(ctx: Ctx, rep: Report, f: Func, tops: str, bottoms: str, need_empty_guard: bool = True) -> None:
+    cfg = ctx.cfg(f)
+    paths = [p for p in function_paths(cfg) if not p.raises]
+    # all(any(b.subnet_of(t) for t in tops) for b in bottoms)
+    for p in paths:
+        r = p.ret
+        if isinstance(r, ast.Call) and isinstance(r.func, ast.Name) and r.func.id == "all":
+            rep.note(f"R03.6 {f.qualname}: all(any(...)) idiom present; loop-nest rule not applied to it")
+    fors = [n for n in cfg.live if n.kind == "for"]
+    outer = [n for n in fors if src(n.ast.iter) == bottoms]
+    inner = [n for n in fors if src(n.ast.iter) == tops]
+    if not outer or not inner:
+        rep.violation(f.qualname, "loop nest", f"expected `for b in {bottoms}` enclosing `for t in {tops}` (∀ bottom ∃ top)", where(f))
+        return
+    o, i = outer[0], inner[0]
+    bvar, tvar = src(o.ast.target), src(i.ast.target)
+    # (a) success test: <bvar>.subnet_of(<tvar>)
+    succ_conds = []
+    for c in cfg.live:
+        if c.kind == "cond" and isinstance(c.ast, ast.Call) and isinstance(c.ast.func, ast.Attribute) and c.ast.func.attr == "subnet_of" and len(c.ast.args) == 1:
+            recv, arg = src(c.ast.func.value), src(c.ast.args[0])
+            if recv == bvar and arg == tvar:
+                succ_conds.append(c)
+            elif recv == tvar and arg == bvar:
+                rep.violation(f.qualname, snippet(c.ast), "direction reversed: tests whether the *top* network lies inside the *bottom* network", where(f, c.ast), inp="every /32 would cover its /8")
+                return
+    if not succ_conds:
+        rep.violation(f.qualname, "inclusion test", f"no `{bvar}.subnet_of({tvar})` test inside the loop nest", where(f))
+        return
+    rep.ok(f"{f.qualname}: {snippet(succ_conds[0].ast)}", "receiver is the bottom element, argument the top element", where=where(f, succ_conds[0].ast))
+    # (b) the next bottom (and the final True) is reachable from the outer body only through a held success test
+    cut = {(c.id, "T") for c in succ_conds}
+    body_start = [s for lab, s in o.succ if lab == "body"]
+    truthy = [r for r in return_nodes(cfg) if not falsy_const_return(r)]
+    reach = reachable_without_edges(cfg, body_start[0], cut) if body_start else set()
+    if o in reach or any(r in reach for r in truthy):
+        rep.violation(f.qualname, "∀∃ structure", "a bottom network can be passed over (next iteration or `return True`) without any top network containing it", where(f, o.ast))
+    else:
+        rep.ok(f"{f.qualname}: ∀ bottom ∃ top", "from the outer loop body the next bottom / `return True` is reachable only through a held inclusion test", where=where(f, o.ast))
+    # (c) truthy return only after the outer loop is exhausted
+    for r in truthy:
+        cut2 = {(o.id, "exit")}
+        if r in reachable_without_edges(cfg, cfg.entry, cut2):
+            rep.violation(f.qualname, snippet(r.ast), "a truthy return is reachable before every bottom network was examined", where(f, r.ast))
+        else:
+            rep.ok(f"{f.qualname}: {snippet(r.ast)}", "only after the outer loop is exhausted", where=where(f, r.ast))
+    # (d) empty covers nothing / nothing covers empty
+    if need_empty_guard:
+        for nm in (tops, bottoms):
+            guarded = False
+            for p in paths:
+                for test, truth in p.atoms:
+                    if src(test) == nm and not truth and isinstance(p.ret, ast.Constant) and p.ret.value is False:
+                        guarded = True
+                    if isinstance(test, ast.Call) and src(test) == f"len({nm})" and not truth and isinstance(p.ret, ast.Constant) and p.ret.value is False:
+                        guarded = True
+            # every path on which nm is empty must return False: cut the guard's falsy edge and see that a truthy return
+            # cannot be reached through an exhausted loop over nm only
+            if guarded:
+                rep.ok(f"{f.qualname}: empty {nm}", "returns False", where=where(f))
+            else:
+                rep.violation(f.qualname, f"empty {nm}", f"an empty `{nm}` is not answered with False: an address group without members would cover / be covered", where(f))
+
+
+def r03_6(ctx: Ctx, rep: Report, helpers: Dict[str, Optional[Func]]) -> None:
+    rep.rule("R03.6")
+    so_f = ctx.func("helpers.subnet_of")
+    rep.instance()
+    params = so_f.params
+    rep.require(set(params) >= {"tops", "bottoms"}, "helpers.subnet_of lost its tops/bottoms parameters")
+    check_subnet_of_shape(ctx, rep, so_f, "tops", "bottoms")
+    for fld in ("_srcaddr", "_dstaddr"):
+        h = helpers.get(fld)
+        if h is None:
+            continue
+        rep.instance()
+        other = h.params[1] if len(h.params) > 1 else "other"
+        cfg = ctx.cfg(h)
+        seen = False
+        for p in function_paths(cfg):
+            if p.raises:
+                continue
+            r = deep_resolve(p.ret, p.env) if p.ret is not None else None
+            if r is None or isinstance(r, ast.Constant):
+                continue
+            for call in [x for x in ast.walk(r) if isinstance(x, ast.Call)]:
+                tgt = None
+                if isinstance(call.func, ast.Attribute) and call.func.attr == "subnet_of":
+                    tgt = call
+                if tgt is None:
+                    continue
+                args: Dict[str, ast.AST] = {}
+                for k in tgt.keywords:
+                    if k.arg:
+                        args[k.arg] = k.value
+                for idx, a in enumerate(tgt.args):
+                    if idx < len(params):
+                        args[params[idx]] = a
+                if not {"tops", "bottoms"} <= set(args):
+                    continue
+                seen = True
+                t, b = args["tops"], args["bottoms"]
+                ok_t = mentions(t, other) and not mentions(t, "self")
+                ok_b = mentions(b, "self") and not mentions(b, other)
+                ft = {norm_field(h.cls, c[1]) for c in chains_in(t) if len(c) >= 2}
+                fb = {norm_field(h.cls, c[1]) for c in chains_in(b) if len(c) >= 2}
+                if not (ok_t and ok_b):
+                    rep.violation(h.qualname, snippet(tgt), f"tops must come from {other} (the upper entry) and bottoms from self", where(h), inp="every host would cover its supernet")
+                elif ft != {fld} or fb != {fld}:
+                    rep.violation(h.qualname, snippet(tgt), f"address cover of {fld} reads {sorted(ft | fb)}", where(h))
+                else:
+                    rep.ok(f"{h.qualname}: subnet_of(tops={snippet(t, 30)}, bottoms={snippet(b, 30)})", f"tops from {other}.{fld}, bottoms from self.{fld}", where=where(h))
+        if not seen:
+            rep.violation(h.qualname, "address cover", "the answer is not decided by helpers.subnet_of(tops, bottoms)", where(h))
+
+
+def run(ctx: Ctx, rep: Report, tier: str) -> None:
+    fields = r03_1(ctx, rep)
+    helpers = {f: helper_for_field(ctx, rep, f) for f in fields}
+    r03_2(ctx, rep, helpers)
+    r03_3(ctx, rep)
+    n = 0
+    for fld in ("_srcport", "_dstport"):
+        h = helpers.get(fld)
+        if h is not None:
+            port_cover_rules(ctx, rep, h, fld)
+            n += 1
+    rep.rule("R03.4")
+    rep.floor(min(2, n) if n else 0, "port cover helpers")
+    opt = helpers.get("_option")
+    if opt is not None:
+        flags_rule(ctx, rep, opt)
+    r03_5(ctx, rep, helpers.get("_protocol"))
+    r03_6(ctx, rep, helpers)
+
+
+def flags_rule(ctx: Ctx, rep: Report, h: Func) -> None:
+    """R03.7 for the option flags helper (inclusion direction only; empty flags really mean no flag)."""
+    rep.rule("R03.7")
+    rep.instance()
+    other = h.params[1] if len(h.params) > 1 else "other"
+    cfg = ctx.cfg(h)
+    found = False
+    for p in function_paths(cfg):
+        if p.raises or p.ret is None or isinstance(p.ret, ast.Constant):
+            continue
+        inc = inclusion(p.ret, p.env)
+        if inc is None:
+            continue
+        found = True
+        x, y, kind = inc
+        rx_, ry = deep_resolve(x, p.env), deep_resolve(y, p.env)
+        good = kind == "subset" and mentions(rx_, "self") and not mentions(rx_, other) and mentions(ry, other) and not mentions(ry, "self")
+        if good:
+            rep.ok(f"{h.qualname}: {snippet(p.ret, 60)}", f"bottom(self) ⊆ top({other})", where=where(h))
+        else:
+            rep.violation(h.qualname, snippet(p.ret), f"flag cover is not bottom ⊆ top ({kind}: {snippet(rx_, 40)} vs {snippet(ry, 40)})", where(h))
+    if not found:
+        rep.violation(h.qualname, "cover test", "no set-inclusion test decides the flag cover", where(h))
